@@ -447,8 +447,9 @@ def lsh(name, sh):
 
 # grammar texts whose real token tables are emitted as data for the non-vacuity examples of Props/C24.lean
 # (a real text that both parsers accept, with RREL separator repetitions, whitespace and a comment; and a
-# text with a trailing RREL separator)
-EXAMPLE_TEXTS = {"exOk": "A: b=[B|n|a.b,^c*]; // x\n", "exTrail": "A:b=[B|n|a.];"}
+# text with a trailing RREL separator; a text where a separator token is followed by a non-element only at a
+# position the parser never visits as an RREL position)
+EXAMPLE_TEXTS = {"exOk": "A: b=[B|n|a.b,^c*]; // x\n", "exTrail": "A:b=[B|n|a.];", "exStr": "A: 'a.';"}
 
 
 def token_entries(toks, text):
